@@ -82,6 +82,7 @@ def impl_case(args) -> dict:
 def gen_case(rng, idx, tier):
     n = rng.choice([2, 5, 9, 15, 16, 17, 20, 24, 33, 40] if tier == "thorough" else [3, 9, 15, 16, 17, 22, 34])
     files = gen_project(rng, n)
+    n = len(files)      # gen_project may add extensionless files
     runs = []
     for _ in range(3 if tier == "quick" else 5):
         k = rng.choice([1, 2, 3, 4, 5, 6, 7, 8, 9, 10, 12, 16])
